@@ -111,6 +111,8 @@ func Generate(rng *lib.Rng, n int, p Profile, bin, home, work string) ([]*Case, 
 		var top *Top
 		if p.OrderLimit {
 			top = g.GenOrderLimitTop(i)
+		} else if p.TrigFamily {
+			top = g.GenTriggerTop(i)
 		} else if p.Logic {
 			top = g.GenLogicTop(i)
 		} else if p.Nested {
